@@ -487,28 +487,8 @@ impl Check for C09 {
 
     fn families(&self, tier: Tier, _seed: u64) -> Vec<Family<ClientPlan>> {
         let mut fams = vec![];
-        // the "undecodable body" fault must really be undecodable for the library
-        {
-            use crate::seqs::{library_parses, SeqId};
-            let probes: [((u8, u8), bool, SeqId); 9] = [
-                ((0x06, 0x0f), false, SeqId::Registration),
-                ((0x06, 0x0f), true, SeqId::GetSystemInfo),
-                ((0x06, 0x0f), false, SeqId::Reservation),
-                ((0x04, 0x0f), false, SeqId::Reservation),
-                ((0x04, 0xff), false, SeqId::ReadCard),
-                ((0x06, 0x1e), false, SeqId::PartialReversal),
-                ((0x06, 0xd1), false, SeqId::EndOfDay),
-                ((0x06, 0xd3), false, SeqId::PartialReversal),
-                ((0x04, 0x0f), false, SeqId::ReadCard),
-            ];
-            for (cf, ident, seq) in probes {
-                let f = bad_body_for(cf, ident);
-                if library_parses(seq, &f).unwrap_or(false) {
-                    eprintln!("HARNESS ERROR: fault frame {} is decodable by the library; the BadBody fault would not be a fault", crate::conn::hex(&f));
-                    std::process::exit(2);
-                }
-            }
-        }
+        // (whether an "undecodable body" really is undecodable for the library under test is decided per
+        // run by the simulated terminal: a body the library reads is not injected as a fault)
         let wl = workloads();
         let mut cases: Vec<(usize, u16, FaultKind)> = vec![];
         for (wi, ops) in wl.iter().enumerate() {
